@@ -5,7 +5,8 @@ import json, os, shutil, sys
 sys.path.insert(0, '/verif')
 from engine.driver import write_replay
 fid, prop, status, commit, module, fn, part, args, what, predicate = sys.argv[1:11]
-path = write_replay(prop, module, fn, json.loads(part), json.loads(args), {}, what)
+model = json.loads(sys.argv[11]) if len(sys.argv) > 11 else None
+path = write_replay(prop, module, fn, json.loads(part), json.loads(args), {}, what, engine='sn' if model else 'ch', model=model)
 dst = '/verif/known/%s.py' % fid
 shutil.move(path, dst)
 data = json.load(open('/verif/known_findings.json'))
